@@ -441,3 +441,99 @@ def queue_commit_rules(ctx):
                 if a[0] == "bin" and a[1] == "BitAnd" and any(simplify(a[2]) == v for v in stores): ok = True
         ctx.ob("R-ENUM", BP, "mpsc/bulk-boundary-test-uses-commit", ok, "the block is retired iff the committed index is block-aligned" if ok else
                "mpsc bulk_pop's block-boundary test is not on the index it commits", f.where())
+
+# ------------------------------------------------------------------------------------------------
+# R-LIN: linear ownership of the suspended coroutine (C01, C02)
+
+def _strip_shared(t):
+    out = t
+    for head in ("std::sync::Arc<", "std::rc::Rc<", "std::sync::Weak<"):
+        while head in out:
+            i = out.index(head); j = i + len(head); d = 1
+            while j < len(out) and d:
+                if out[j] == '<': d += 1
+                elif out[j] == '>' and out[j - 1] != '-': d -= 1
+                j += 1
+            out = out[:i] + "SHARED" + out[j:]
+    return out
+
+def owns_coroutine(prog, t, memo=None, depth=0):
+    """type string denotes a value that owns (by value, not through Arc/&/raw pointer) a suspended coroutine"""
+    memo = memo if memo is not None else {}
+    if t in memo: return memo[t]
+    if depth > 6: return False
+    memo[t] = False
+    s = _strip_shared(t).strip()
+    r = False
+    if s.startswith("&") or s.startswith("*const") or s.startswith("*mut"): r = False
+    elif "GeneratorObj" in s or "generator::gen_impl::Generator" in s: r = True
+    else:
+        for name in set(re.findall(r"(may(?:_queue)?::[\w:]+)", s)):
+            a = prog.adts.get(norm(name))
+            if a:
+                for v in a["variants"]:
+                    for fld in v["fields"]:
+                        if owns_coroutine(prog, fld["t"], memo, depth + 1): r = True
+    memo[t] = r
+    return r
+
+# (function, head of the dropped type) -> reason; everything else is a violation
+COROUTINE_SINKS = {
+    ("may::coroutine_impl::Done::drop_coroutine", "GeneratorObj"): "a finished coroutine whose stack is not recycled (non-default size)",
+    ("may::pool::CoroutinePool::put", "GeneratorObj"): "a finished coroutine's stack when the pool is full",
+    ("may::scheduler::Scheduler::collect_global", "smallvec::IntoIter"): "the exhausted iterator of a drained batch (every element was moved to the local queue)",
+    ("may::scheduler::Scheduler::collect_global", "smallvec::SmallVec"): "the empty batch that ends the drain loop",
+    ("may::cqueue::Cqueue::poll", "may::cqueue::Event"): "a Done event (constructed with co: None) or an event whose coroutine was taken by continue_bottom",
+    ("<may::cqueue::Cqueue as std::ops::Drop>::drop", "std::result::Result"): "events returned by poll during the final drain (their coroutine was taken by continue_bottom)",
+    ("may::cqueue::scope", "may::cqueue::Cqueue"): "the Cqueue itself, whose Drop drains it",
+    ("may::io::sys::select::Selector::new", "may::io::sys::select::Selector"): "construction failure: no coroutine exists yet",
+    ("may::scheduler::Scheduler::new", "may_queue::spmc::Steal"): "a clone of the shared stealer handle (Arc inside)",
+    ("may::scheduler::Scheduler::new", "may::crossbeam_queue_shim::Steal"): "a clone of the shared stealer handle (crossbeam Stealer: Arc inside)",
+}
+
+def coroutine_linearity_rules(ctx):
+    memo = {}
+    seen = set(); n = 0
+    for f in sorted(ctx.prog.fns.values(), key=lambda x: x.id):
+        if not (f.id.startswith("may::") or f.id.startswith("<may::") or f.id.startswith("<T as may")): continue
+        for pt in f.points():
+            if not f.is_term(pt): continue
+            nd = f.node(pt)
+            if nd["t"] == "drop":
+                ty = nd["ty"]
+            elif nd["t"] == "call" and (callee_name(nd) or "") in ("std::mem::drop", "core::mem::drop", "std::mem::forget", "core::mem::forget") and nd["args"]:
+                pl = nd["args"][0].get("m") or nd["args"][0].get("c")
+                ty = type_of_place(f, pl) if pl else None
+                if ty is None: continue
+            else:
+                continue
+            if not owns_coroutine(ctx.prog, ty, memo): continue
+            n += 1
+            base = f.id.split("::{closure#")[0]
+            head = "GeneratorObj" if ty.startswith("generator::gen_impl::GeneratorObj") else ty.split("<", 1)[0]
+            key = (base, head)
+            if key in seen: continue
+            seen.add(key)
+            ok = key in COROUTINE_SINKS
+            ctx.fns_touched.add(f.id)
+            ctx.ob("R-LIN", base, "no-silent-drop:" + head.rsplit("::", 1)[-1], ok,
+                   "normal-path drop of a coroutine-owning %s in %s is an enumerated sink: %s" % (head, base, COROUTINE_SINKS.get(key)) if ok else
+                   "%s drops a value of type %s that owns a suspended coroutine on a NORMAL path and is not an enumerated sink: that coroutine never runs to its end (its join hangs)" % (base, ty[:120]),
+                   f.where(pt))
+    if n < 8:
+        ctx.missing("R-LIN", "coroutine drops", "no-silent-drop", "expected ≥8 normal-path drops of coroutine-owning values (the enumerated sinks), found %d" % n)
+    # forge / duplicate sites: raw round trips of a coroutine
+    ctx.who_may_call(r"generator::gen_impl::Generator(Obj|Impl)::(from_raw|into_raw)|generator::gen_impl::Generator::(from_raw|into_raw)",
+                     {"may::sync::spsc::Blocker::new_coroutine", "may::sync::spsc::Blocker::into_coroutine"}, "raw-round-trip-sites",
+                     "a coroutine is turned into / rebuilt from a raw pointer only by spsc::Blocker (each consuming its source): nothing else can forge or duplicate one", rule="R-LIN", min_callers=2)
+    ctx.who_may_call(r"may::sync::spsc::Blocker::into_coroutine", {"may::sync::spsc::Blocker::unpark", "<may::sync::spsc::Park as may::coroutine_impl::EventSource>::subscribe"},
+                     "into-coroutine-callers", "the raw handle is turned back into a coroutine only where the Blocker was just taken out of the slot (consumed by value)", rule="R-LIN", min_callers=2)
+    # AtomicOption surface: no accessor that could hand out a second owner
+    ms = set()
+    for im in ctx.prog.impls:
+        if norm(im.get("self_adt") or "") == "may::sync::atomic_option::AtomicOption" and not im.get("trait"):
+            ms |= set(m["n"] for m in im["methods"])
+    ok = ms == {"none", "some", "store", "take", "clear"}
+    ctx.ob("R-API", "may::sync::atomic_option::AtomicOption", "surface", ok,
+           "AtomicOption exposes exactly {none, some, store, take, clear}: a value can only be moved in or moved out (two resumers cannot both obtain the coroutine)" if ok else
+           "AtomicOption's inherent API is %s; anything beyond {none, some, store, take, clear} (a getter, a peek, a clone) lets two parties hold the same coroutine" % sorted(ms), None)
